@@ -58,7 +58,7 @@ def s(lists, rng):
 
 def run(ctx):
     ctx.assume("numpy Generator.shuffle is a uniform permutation")
-    rule_P(ctx)
+    ctx.soft(rule_P)
 
 
 def rule_P(ctx):
